@@ -67,6 +67,25 @@ def search(ck, tier, seed):
             if max(errs) > tol or any(math.isnan(v) for v in errs):
                 ck.finding("logabsdet:not-log-det-jacobian:%s" % e["name"],
                            "%s: |logabsdet - log|det J|| = %s (D=%d)" % (e["name"], ["%.3g" % v for v in errs], D), case)
+    # an instance that was evaluated first and then received another checkpoint: outputs and log-abs-det must both come from the
+    # parameters it holds NOW
+    for e in ents:
+        t = attempt(catalogue.used_then_loaded, e, seed + 40)
+        if t[0] != "ok" or t[1] is None:
+            continue
+        t = t[1]
+        x, ctx = catalogue.sample_inputs(e, 2, seed + 41)
+        ck.case(("c01-loaded", e["name"]), nontrivial=True)
+        case = {"search": "jacobian-after-load", "entry": e["name"], "seed": seed}
+        r = attempt(jacobian_check, t, x, ctx)
+        if r[0] != "ok":
+            continue
+        errs, D, lad = r[1]
+        tol = (2e-3 if e["umnn"] else 1e-7) * max(1, D)
+        if max(errs) > tol or any(math.isnan(v) for v in errs):
+            ck.finding("logabsdet:not-log-det-jacobian:after-load:%s" % e["name"],
+                       "%s, evaluated and then loaded with another state dict: |logabsdet - log|det J|| = %s (D=%d)"
+                       % (e["name"], ["%.3g" % v for v in errs], D), case)
     # parameters far from their initial values (scales of 1e-4 .. 1e4): guards, clamps and epsilons that only act out there must
     # change the map and its log-abs-det together
     from nflows.transforms import normalization as norm_, standard as std_, lu as lu_, nonlinearities as nl_
